@@ -105,7 +105,9 @@ fn corrupt_versatiles_inner(rng: &mut Rng, f: &[u8]) -> Option<Vec<u8>> {
 		let k = rng.below((bi.len() / 33) as u64) as usize * 33;
 		let (off, tlen, ilen) = (be(&bi[k + 13..k + 21]) as usize, be(&bi[k + 21..k + 29]) as usize, be(&bi[k + 29..k + 33]) as usize);
 		let ti = indep::unbrotli(f.get(off + tlen..off + tlen + ilen)?).ok()?;
-		let ti2 = match rng.below(3) { 0 => mutate_bytes(rng, ti), 1 => { let mut t = ti; t.extend([0u8; 12]); t } _ => { let mut t = ti; t.truncate(t.len().saturating_sub(12)); t } };
+		let ti2 = match rng.below(5) { 0 => mutate_bytes(rng, ti), 1 => { let mut t = ti; t.extend([0u8; 12]); t } 2 => { let mut t = ti; t.truncate(t.len().saturating_sub(12)); t }
+			// a whole field of one entry pushed to the border of its type: offset (u64) or length (u32)
+			_ => { let mut t = ti; if t.len() >= 12 { let e = rng.below((t.len() / 12) as u64) as usize * 12; if rng.chance(2, 3) { let v = u64::MAX - *rng.pick(&[0u64, 1, 50, 1000]); t[e..e + 8].copy_from_slice(&v.to_be_bytes()); } else { t[e + 8..e + 12].copy_from_slice(&u32::MAX.to_be_bytes()); } } t } };
 		let c = indep::brotli_c(&ti2);
 		// place the new index right behind a copy of nothing: point the block at the end of the file
 		let new_off = out.len() as u64; out.extend(&c);
